@@ -120,3 +120,22 @@ package pypi
 //@ lemma c20-range-equal [C20] uses c20-equal: forall pr *VersionRange, v1, v2 *Version :: pr != nil && v1 != nil && v2 != nil && wfRange(pr) && (forall i int :: 0 <= i && i < len(pr.constraints) ==> (pr.constraints[i].operator == "==" || pr.constraints[i].operator == "!=" || pr.constraints[i].operator == "<" || pr.constraints[i].operator == "<=" || pr.constraints[i].operator == ">" || pr.constraints[i].operator == ">=" || pr.constraints[i].operator == "notin")) && v1.Compare(v2) == 0 ==> ((forall i int :: 0 <= i && i < len(pr.constraints) ==> pr.constraints[i].matches(v1)) == (forall i int :: 0 <= i && i < len(pr.constraints) ==> pr.constraints[i].matches(v2)))
 // ... and the set a range without != accepts is convex in the order
 //@ lemma c20-range-convex [C20] uses c20-convex: forall pr *VersionRange, a, b, d *Version :: pr != nil && a != nil && b != nil && d != nil && wfRange(pr) && (forall i int :: 0 <= i && i < len(pr.constraints) ==> (pr.constraints[i].operator == "==" || pr.constraints[i].operator == "!=" || pr.constraints[i].operator == "<" || pr.constraints[i].operator == "<=" || pr.constraints[i].operator == ">" || pr.constraints[i].operator == ">=") && pr.constraints[i].operator != "!=") && a.Compare(b) <= 0 && b.Compare(d) <= 0 && (forall i int :: 0 <= i && i < len(pr.constraints) ==> pr.constraints[i].matches(a)) && (forall i int :: 0 <= i && i < len(pr.constraints) ==> pr.constraints[i].matches(d)) ==> (forall i int :: 0 <= i && i < len(pr.constraints) ==> pr.constraints[i].matches(b))
+
+// ---- compatible release (C05): ~=V is >=V together with an upper bound obtained by dropping the last release segment
+// and bumping the one before it (claimed for the two- and three-segment forms PEP 440 uses in its examples)
+//@ func parseCompatibleRelease
+//@   loop 1 invariant forall j int :: 0 <= j && j <= rangeindex && v.release[j] < 9223372036854775807 ==> upper[j] == itoa(j == len(v.release) - 2 ? v.release[j] + 1 : v.release[j])
+//@   ensures rejects-bad-base: theEcosystem().NewVersion(version).1 != nil ==> result1 != nil   [C05]
+//@   ensures lower: theEcosystem().NewVersion(version).1 == nil ==> result1 == nil && len(result0) >= 1 && result0[0].operator == ">=" && result0[0].version == version   [C05]
+//@   ensures two-segments: theEcosystem().NewVersion(version).1 == nil && len(theEcosystem().NewVersion(version).0.release) == 2 && theEcosystem().NewVersion(version).0.epoch == 0 && theEcosystem().NewVersion(version).0.release[0] < 9223372036854775807 ==> len(result0) == 2 && result0[1].operator == "<" && result0[1].version == itoa(theEcosystem().NewVersion(version).0.release[0] + 1) + ".0"   [C05]
+//@   ensures three-segments: theEcosystem().NewVersion(version).1 == nil && len(theEcosystem().NewVersion(version).0.release) == 3 && theEcosystem().NewVersion(version).0.epoch == 0 && theEcosystem().NewVersion(version).0.release[0] < 9223372036854775807 && theEcosystem().NewVersion(version).0.release[1] < 9223372036854775807 ==> len(result0) == 2 && result0[1].operator == "<" && result0[1].version == itoa(theEcosystem().NewVersion(version).0.release[0]) + "." + itoa(theEcosystem().NewVersion(version).0.release[1] + 1) + ".0"   [C05]
+
+// ---- prefix matching (C05): ==V.* is >=V.0 together with <V'.0 where V' bumps the last written segment; !=V.* is the
+// complement (claimed for one and two written segments)
+//@ spec wbase(version string) string = strings.TrimSuffix(version, ".*")
+//@ func parseWildcardConstraint
+//@   loop 1 invariant forall j int :: 0 <= j && j <= rangeindex && v.release[j] < 9223372036854775807 ==> lower[j] == itoa(v.release[j]) && upper[j] == itoa(j == len(v.release) - 1 ? v.release[j] + 1 : v.release[j])
+//@   ensures rejects-bad-base: theEcosystem().NewVersion(wbase(version)).1 != nil ==> result1 != nil   [C05]
+//@   ensures one-segment: theEcosystem().NewVersion(wbase(version)).1 == nil && result1 == nil && operator == "==" && len(theEcosystem().NewVersion(wbase(version)).0.release) == 1 && theEcosystem().NewVersion(wbase(version)).0.epoch == 0 && theEcosystem().NewVersion(wbase(version)).0.release[0] < 9223372036854775807 ==> len(result0) == 2 && result0[0].operator == ">=" && result0[0].version == itoa(theEcosystem().NewVersion(wbase(version)).0.release[0]) + ".0" && result0[1].operator == "<" && result0[1].version == itoa(theEcosystem().NewVersion(wbase(version)).0.release[0] + 1) + ".0"   [C05]
+//@   ensures two-segments: theEcosystem().NewVersion(wbase(version)).1 == nil && result1 == nil && operator == "==" && len(theEcosystem().NewVersion(wbase(version)).0.release) == 2 && theEcosystem().NewVersion(wbase(version)).0.epoch == 0 && theEcosystem().NewVersion(wbase(version)).0.release[0] < 9223372036854775807 && theEcosystem().NewVersion(wbase(version)).0.release[1] < 9223372036854775807 ==> len(result0) == 2 && result0[0].operator == ">=" && result0[0].version == itoa(theEcosystem().NewVersion(wbase(version)).0.release[0]) + "." + itoa(theEcosystem().NewVersion(wbase(version)).0.release[1]) + ".0" && result0[1].operator == "<" && result0[1].version == itoa(theEcosystem().NewVersion(wbase(version)).0.release[0]) + "." + itoa(theEcosystem().NewVersion(wbase(version)).0.release[1] + 1) + ".0"   [C05]
+//@   ensures complement: theEcosystem().NewVersion(wbase(version)).1 == nil && result1 == nil && operator == "!=" && len(theEcosystem().NewVersion(wbase(version)).0.release) == 2 && theEcosystem().NewVersion(wbase(version)).0.epoch == 0 && theEcosystem().NewVersion(wbase(version)).0.release[0] < 9223372036854775807 && theEcosystem().NewVersion(wbase(version)).0.release[1] < 9223372036854775807 ==> len(result0) == 1 && result0[0].operator == "notin" && result0[0].version == itoa(theEcosystem().NewVersion(wbase(version)).0.release[0]) + "." + itoa(theEcosystem().NewVersion(wbase(version)).0.release[1]) + ".0" && result0[0].upper == itoa(theEcosystem().NewVersion(wbase(version)).0.release[0]) + "." + itoa(theEcosystem().NewVersion(wbase(version)).0.release[1] + 1) + ".0"   [C05]
